@@ -17,10 +17,20 @@ func runC20(w *World, p map[string]int) {
 		w.Violate("C20.harness", "%v", err)
 		return
 	}
-	nW := 2 + t.Int(2)
+	pressure := t.Bool(param(p, "longpct", 6))
+	nW := 2 + t.Int(4)
+	if pressure {
+		nW = 2 // more wallets are created after Start (the task queue is sized at Start)
+	}
 	if err := setupWallets(w, inst, nW); err != nil {
 		w.Violate("C20.setup", "%v", err)
 		return
+	}
+	if pressure {
+		// a long chain: rescans of re-imported wallets span several
+		// 1000-height batches (the worker re-queues the task between them)
+		w.PreMine(t, 1001+t.Int(1300), 97)
+		w.Stat("probe.long_chain")
 	}
 	if err := inst.StartSolo(); err != nil {
 		w.Violate("C20.start", "Start: %v", err)
@@ -33,6 +43,41 @@ func runC20(w *World, p map[string]int) {
 	}
 	nOps := 3 + t.Int(param(p, "ops", 25))
 	var removed []*WalletState
+	if pressure {
+		// queue pressure on a long chain: one wallet is removed and restored
+		// (its rescan needs several batches, i.e. re-queues), and while that
+		// runs three more removals are accepted back to back
+		for k := 0; k < 3; k++ {
+			if ws, err := inst.CreateWallet(fmt.Sprintf("late%dPassw", k), 128, true); err == nil {
+				if _, e2 := inst.Use(ws.ID, true); e2 == nil {
+					inst.NewAddress(false, true)
+				}
+			}
+		}
+		ids := inst.SortedWalletIDs()
+		first := inst.Wallets[ids[t.Int(len(ids))]]
+		if err := inst.RemoveWallet(first.ID, first.Pass, true); err == nil {
+			w.S.Quiesce(20000)
+			if w.walletGone(inst, first.ID) {
+				delete(inst.Wallets, first.ID)
+				if nw, err := inst.ImportMnemonic(first, uint32(len(first.Issued)), true); err == nil {
+					nw.Issued = first.Issued
+					w.Gen.AddWalletParty(nw)
+					w.runSteps(1 + t.Int(6))
+					for _, id := range inst.SortedWalletIDs() {
+						if id == nw.ID || w.Stats["probe.pressure_removals"] >= 3 {
+							continue
+						}
+						ws := inst.Wallets[id]
+						if err := inst.RemoveWallet(id, ws.Pass, true); err == nil {
+							removed = append(removed, ws)
+							w.Stat("probe.pressure_removals")
+						}
+					}
+				}
+			}
+		}
+	}
 	stopAt := nOps // == nOps means: no stop, liveness only
 	if t.Bool(65) {
 		stopAt = t.Int(nOps)
@@ -53,7 +98,37 @@ func runC20(w *World, p map[string]int) {
 			w.Stat("op.stop")
 			break
 		}
-		switch t.Weighted([]int{8, 2, 4, 4, 3}) {
+		switch t.Weighted([]int{8, 2, 4, 4, 3, 2}) {
+		case 5:
+			// burst: several task requests back to back while the worker is
+			// not scheduled (queue pressure)
+			for k := 0; k < 3; k++ {
+				var live []string
+				for _, id := range inst.SortedWalletIDs() {
+					if !inst.Wallets[id].Removing {
+						live = append(live, id)
+					}
+				}
+				if len(live) > 1 && t.Bool(60) {
+					id := live[t.Int(len(live))]
+					ws := inst.Wallets[id]
+					if err := inst.RemoveWallet(id, ws.Pass, true); err == nil {
+						removed = append(removed, ws)
+					}
+				} else if len(removed) > 0 {
+					src := removed[t.Int(len(removed))]
+					if _, still := inst.Wallets[src.ID]; still && !w.walletGone(inst, src.ID) {
+						continue
+					}
+					delete(inst.Wallets, src.ID)
+					if nw, err := inst.ImportMnemonic(src, uint32(len(src.Issued)), true); err == nil {
+						nw.Issued = src.Issued
+						w.Gen.AddWalletParty(nw)
+					}
+				}
+			}
+			w.Stat("op.task_burst")
+			continue
 		case 0:
 			w.MineOnTip(t, 70)
 		case 1:
@@ -141,7 +216,15 @@ func runC20(w *World, p map[string]int) {
 	pending := len(inst.Pending)
 	n, ok := w.S.Quiesce(20000 + 500*pending)
 	if !ok {
-		w.Violate("C20.liveness", "not quiescent after %d fair steps: %v", n, w.S.ParkedSummary())
+		w.Violate("C20.liveness", "not quiescent after %d fair steps: %v | wallet errors: %q", n, w.S.ParkedSummary(), w.RecentErrors(4))
+		if w.LogOn {
+			es, _ := DumpDB(inst.DB)
+			for _, e := range es {
+				if e.Bucket[0] != 'k' {
+					w.Logf("db %s", e.String())
+				}
+			}
+		}
 		return
 	}
 	if len(w.S.Panics) > 0 {
